@@ -1,8 +1,9 @@
 #!/usr/bin/env python3
 """T1 extractor for C09: operators, constants and step structure of the version
 store (zonetree/in_memory/versioned.rs) and of the reader/writer protocol
-(nodes.rs, write.rs).  Every item is used by coq/C09/Model.v; a pattern that no
-longer matches raises GenError (no Gen.v, the Coq build fails)."""
+(nodes.rs, write.rs).  The emitted operators/flags select the branches of coq/C09/Model.v; further
+structural patterns are only checked.  A pattern that no longer matches raises
+GenError (no Gen.v, the Coq build fails)."""
 import re, sys, os
 sys.path.insert(0, os.path.dirname(os.path.abspath(__file__)))
 from rs import *
@@ -127,7 +128,31 @@ def build():
         r"None => \{ if node\.rrsets\(\)\.is_empty\(self\.zone\.new_version\) \{ Some\(true\) \} else \{ None \} \} _ => None,", cn, "check_nx_domain decision")
     one(r"if new_nxdomain \{ node\.update_special\( self\.zone\.new_version, Some\(Special::NxDomain\), \); \} else \{ node\.update_special\(self\.zone\.new_version, None\); \}", cn, "check_nx_domain update")
     defs.append(("nx_marker_follows_emptiness", "bool", "true"))
+    # ---- node existence is derived from versioned data (nodes.rs ZoneNode::exists, read.rs)
+    ex = flat(fn_body(zn, "exists"))
+    m = one(r"^(!?)self\.rrsets\.is_empty\(version\) \|\| self\.with_special\(version, \|special\| \{ matches!\( special, Some\(Special::Cut\(_\)\) \| Some\(Special::Cname\(_\)\) \) \}\) \|\| self\.children\.any_exists\(version\)$", ex, "ZoneNode::exists")
+    if m.group(1) != "!":
+        raise GenError("ZoneNode::exists no longer tests !rrsets.is_empty(version)")
+    defs.append(("exists_counts_rrsets", "bool", "true"))
+    defs.append(("exists_counts_cname", "bool", "true"))
+    one(r"^self\.children \.read\(\) \.values\(\) \.any\(\|item\| item\.exists\(version\)\)$", flat(fn_body(nc, "any_exists")), "NodeChildren::any_exists")
+    ie = flat(fn_body(nr, "is_empty"))
+    one(r"^let rrsets = self\.rrsets\.read\(\); if rrsets\.is_empty\(\) \{ return true; \} for value in rrsets\.values\(\) \{ if value\.get\(version\)\.is_some\(\) \{ return false; \} \} true$", ie, "NodeRrsets::is_empty")
+    rs = strip_comments(read("src/zonetree/in_memory/read.rs"))
+    rz = impl_body(rs, r"impl ReadZone\s*\{", nth=1)
+    qc = flat(fn_body(rz, "query_children"))
+    one(r"let answer = children\.with\(label, \|node\| \{ node\.filter\(\|node\| node\.exists\(self\.version\)\) \.map\(\|node\| self\.query_node\(node, qname, qtype, walk\.clone\(\)\)\) \}\); if let Some\(answer\) = answer \{ return answer; \}", qc, "query_children step 1 follows existing children only")
+    one(r"children\.with\(Label::wildcard\(\), \|node\| \{ match node\.filter\(\|node\| node\.exists\(self\.version\)\) \{ Some\(node\) => \{ self\.query_node_here_but_not_below\(node, qtype, walk\) \} None => NodeAnswer::nx_domain\(\), \} \}\)$", qc, "query_children step 2 wildcard must exist")
+    defs.append(("query_follows_only_existing_children", "bool", "true"))
+    hb = flat(fn_body(rz, "query_node_here_but_not_below"))
+    one(r"Some\(Special::Cname\(cname\)\) => NodeAnswer::cname\(cname\.clone\(\)\), Some\(Special::NxDomain\) \| None => \{ self\.query_rrsets\(node\.rrsets\(\), qtype, walk\) \}", hb, "query_node_here_but_not_below arms")
+    defs.append(("nx_marker_answers_like_regular", "bool", "true"))
+    rd2 = flat(fn_body(rs, "query", after="impl ReadableZone for ReadZone"))
+    one(r"self\.query_below_apex\(label, qname, qtype, WalkState::DISABLED\) \} else \{ self\.query_rrsets\(self\.apex\.rrsets\(\), qtype, WalkState::DISABLED\) \}", rd2, "ReadZone::query dispatch")
+    qr = flat(fn_body(rz, "query_rrsets"))
+    one(r"match rrsets\.get\(qtype, self\.version\) \{ Some\(rrset\) => NodeAnswer::data\(rrset\), None => NodeAnswer::no_data\(\), \}", qr, "query_rrsets reads at the pinned version")
+    one(r"if let Some\(shared_rrset\) = rrset\.get\(self\.version\) \{ walk\.op\(shared_rrset, false\); \}", qr, "walk reads at the pinned version")
     return defs
 
 if __name__ == "__main__":
-    main("C09", "/repo/src/zonetree/in_memory/{versioned,nodes,write}.rs", build)
+    main("C09", "/repo/src/zonetree/in_memory/{versioned,nodes,write,read}.rs", build)
